@@ -1090,8 +1090,13 @@ func ruleMediaFresh(r *Run) {
 		nMedia++
 		res := sl.Slice(ps.MU.Key)
 		dep := res.readsField(p, pkgDoc, "Document", "nextImageID")
+		if dep && !mustReadCounter(p, sl, ps.MU.Key, nil, nil, 0) {
+			// the name depends on the counter on some path only: a path that takes the name from
+			// somewhere else (the caller's file name) can produce a name a later counter value produces too
+			dep = false
+		}
 		r.Check("fresh-dep", "media:"+shortName(ps.Fn)+":name", ps.MU.Pos(), dep,
-			"the name of a new media part must be derived from the per-document counter nextImageID")
+			"the name of a new media part must be derived from the per-document counter nextImageID on every path that produces it (a name taken from elsewhere can coincide with a later counter-made name, and the earlier picture's bytes are overwritten)")
 		// increment
 		var incs []ssa.Instruction
 		allInstrs(ps.Fn, func(in ssa.Instruction) {
@@ -1657,4 +1662,114 @@ func descriptorKindsAgree(p *Program, fn *ssa.Function, c ssa.CallInstruction, k
 		n++
 	}
 	return true, fmt.Sprintf("%d descriptor(s) checked", n)
+}
+
+// mustReadCounter: on every path that produces string value v, v contains (a conversion of) a read
+// of Document.nextImageID.  Concatenation and Sprintf contain all their operands; a phi or a callee
+// with several returns must satisfy it on every edge / return.  call/cal give the calling context
+// for values that live in a callee (its parameters stand for the call's arguments).
+func mustReadCounter(p *Program, sl *slicer, v ssa.Value, call *ssa.Call, cal *ssa.Function, depth int) bool {
+	if v == nil || depth > 10 {
+		return false
+	}
+	v = stripConv(v)
+	switch x := v.(type) {
+	case *ssa.Phi:
+		for _, e := range x.Edges {
+			if !mustReadCounter(p, sl, e, call, cal, depth+1) {
+				return false
+			}
+		}
+		return true
+	case *ssa.BinOp:
+		if x.Op == token.ADD {
+			return mustReadCounter(p, sl, x.X, call, cal, depth+1) || mustReadCounter(p, sl, x.Y, call, cal, depth+1)
+		}
+	case *ssa.MakeInterface:
+		return mustReadCounter(p, sl, x.X, call, cal, depth+1)
+	case *ssa.Parameter:
+		if call != nil && cal != nil {
+			if i := paramIndex(cal, x); i >= 0 && i < len(call.Call.Args) {
+				return mustReadCounter(p, sl, call.Call.Args[i], nil, nil, depth+1)
+			}
+		}
+		return false
+	case *ssa.UnOp:
+		if x.Op == token.MUL {
+			if al, ok := x.X.(*ssa.Alloc); ok && al.Referrers() != nil {
+				n, okAll := 0, true
+				for _, u := range *al.Referrers() {
+					if st, ok := u.(*ssa.Store); ok && st.Addr == ssa.Value(al) {
+						n++
+						if !mustReadCounter(p, sl, st.Val, call, cal, depth+1) {
+							okAll = false
+						}
+					}
+				}
+				if n > 0 {
+					return okAll
+				}
+			}
+			if rep, c2 := structFieldRep(x); rep != nil {
+				return mustReadCounter(p, sl, rep, c2, staticCallee(c2), depth+1)
+			}
+		}
+	case *ssa.Field:
+		if rep, c2 := structFieldRep(x); rep != nil {
+			return mustReadCounter(p, sl, rep, c2, staticCallee(c2), depth+1)
+		}
+	case *ssa.Extract:
+		if c, ok := x.Tuple.(*ssa.Call); ok {
+			if g := staticCallee(c); g != nil && p.inModule(g) && len(g.Blocks) > 0 {
+				rets := returnsOf(g)
+				if len(rets) == 0 {
+					return false
+				}
+				for _, ret := range rets {
+					if x.Index >= len(ret.Results) || !mustReadCounter(p, sl, ret.Results[x.Index], c, g, depth+1) {
+						return false
+					}
+				}
+				return true
+			}
+		}
+	case *ssa.Call:
+		if g := staticCallee(x); g != nil && p.inModule(g) && len(g.Blocks) > 0 {
+			rets := returnsOf(g)
+			if len(rets) == 0 {
+				return false
+			}
+			for _, ret := range rets {
+				if len(ret.Results) == 0 || !mustReadCounter(p, sl, ret.Results[0], x, g, depth+1) {
+					return false
+				}
+			}
+			return true
+		}
+		// a formatting function of another package (Sprintf, Itoa …): its result contains its arguments;
+		// anything else (filepath.Ext, strings.TrimSuffix …) may keep only a part that is not the counter
+		switch calleeName(x) {
+		case "fmt.Sprintf", "fmt.Sprint", "strconv.Itoa", "strconv.FormatInt", "strconv.FormatUint", "strings.ToLower", "strings.ToUpper", "strings.TrimSpace", "path.Join", "path/filepath.Join", "strings.Join":
+		default:
+			return false
+		}
+		for _, a := range x.Call.Args {
+			if mustReadCounter(p, sl, a, call, cal, depth+1) {
+				return true
+			}
+		}
+		if len(x.Call.Args) > 0 {
+			for _, e := range varargElems(x.Call.Args[len(x.Call.Args)-1]) {
+				if mustReadCounter(p, sl, e, call, cal, depth+1) {
+					return true
+				}
+			}
+		}
+		return false
+	}
+	// a plain value: does its (data) slice read the counter?
+	if sl.Slice(v).readsField(p, pkgDoc, "Document", "nextImageID") {
+		return true
+	}
+	return false
 }
